@@ -269,7 +269,7 @@ fn forms_case(c: &(u8, u8, u8, u8, u8), obs: &mut Obs) -> CaseResult {
     Ok(())
 }
 
-const FLAG_DOMAIN: u64 = (1 << 0) | (1 << 2) | (1 << 4) | (1 << 6) | (1 << 7) | (1 << 10) | (1 << 11) | (1 << 21);
+const FLAG_DOMAIN: u64 = (1 << 0) | (1 << 2) | (1 << 4) | (1 << 6) | (1 << 7) | (1 << 10) | (1 << 11) | (1 << 14) | (1 << 21);
 
 /// vectors whose delivery terminated a forked child (found by the smoke sub-check); the in-process
 /// delivery skips them so that the rest of the check can still run
@@ -397,7 +397,7 @@ fn iretq_case(c: &(u32, u64), obs: &mut Obs) -> CaseResult {
 
 pub fn run(run: &mut Run) {
     umh::install();
-    run.assume("a hardware-format frame is pushed by harness assembly exactly as the CPU does in 64-bit mode without stack switch (RSP aligned down to 16, SS, RSP, RFLAGS, CS, RIP[, error code]); CS/SS are the process's ring-3 selectors; RFLAGS image restricted to CF,PF,AF,ZF,SF,DF,OF,ID (+IF=1): TF/AC/NT/IOPL/VM cannot be used in ring 3");
+    run.assume("a hardware-format frame is pushed by harness assembly exactly as the CPU does in 64-bit mode without stack switch (RSP aligned down to 16, SS, RSP, RFLAGS, CS, RIP[, error code]); CS/SS are the process's ring-3 selectors; RFLAGS image restricted to CF,PF,AF,ZF,SF,DF,OF,NT,ID (+IF=1): TF and AC would trap inside the harness, IOPL/VM/VIF/VIP/RF cannot be changed or read back in ring 3");
     run.assume("vectors 8 and 18 (diverging) are left through a stack switch from the general handler because their stubs panic in a non-unwinding ABI if the handler returns");
     let (w, ws) = (run.worker, run.workers);
     let los: Vec<u8> = (0u16..256).filter(|a| (*a as u32) % ws == w).map(|a| a as u8).collect();
